@@ -3565,6 +3565,32 @@ func TestVerifReplay(t *testing.T) {
 			fail("Stack: one Push satisfied two waiters of WaitSizeIsAbove(0), but only %v / %v returned (a Signal wakes one sleeper only)", w1.Load(), w2.Load())
 		}
 	}
+
+	// (5) Stack.PopOrWait: a wait condition that already says "stop" ends the call at once (nobody will wake it up later);
+	// a condition that says "wait" is asked again after every wake-up
+	{
+		s := NewStack[int]()
+		if !returns(2*time.Second, func() {
+			if _, ok := s.PopOrWait(func() bool { return false }); ok {
+				fail("Stack.PopOrWait on an empty stack with a false wait condition reported success")
+			}
+		}) {
+			fail("Stack.PopOrWait on an empty stack whose wait condition is already false does not return (it went to sleep before asking)")
+		}
+		var stop atomic.Bool
+		got := make(chan int, 1)
+		go func() { v, ok := s.PopOrWait(func() bool { return !stop.Load() }); if ok { got <- v } else { got <- -1 } }()
+		time.Sleep(50 * time.Millisecond)
+		s.Push(7)
+		select {
+		case v := <-got:
+			if v != 7 {
+				fail("Stack.PopOrWait returned %d after Push(7)", v)
+			}
+		case <-time.After(3 * time.Second):
+			fail("Stack.PopOrWait did not return after a Push (lost wake-up)")
+		}
+	}
 }
 `
 	return "runtime", "syncutils", src, true
